@@ -2,7 +2,12 @@
 I-SIGNAL / SYSTEM-SIGNAL / COMPU-METHOD (rational coefficients with denominators, text tables) / SW-BASE-TYPE / DATA-CONSTR / UNIT /
 ECU-INSTANCE with ports, following the element skeleton of tests/files/arxml/ARXML_min_max.arxml (Vector AUTOSAR Explorer),
 independent of canmatrix's writer.  Freedom: package layout and element order, insignificant whitespace, optional elements left
-out, denominators other than 1, equivalent number renderings."""
+out, denominators other than 1, equivalent number renderings, and the places the schema offers for one and the same statement:
+the computation method and the data constraint of a signal stand in the NETWORK-REPRESENTATION-PROPS of the I-SIGNAL, in the
+PHYSICAL-PROPS of its SYSTEM-SIGNAL (the layout of the shipped Vector samples) or in both; the unit is referenced by the COMPU-METHOD, by the I-SIGNAL's properties or by both; the I-SIGNAL may state its
+DATA-TYPE-POLICY (LEGACY, OVERRIDE) and I-SIGNAL-TYPE, the SYSTEM-SIGNAL its DYNAMIC-LENGTH.  None of these changes what the
+file describes.  The choices are recorded in `lex.notes` (signal name -> list of texts) for the distribution in the evidence."""
+import random
 from xml.sax.saxutils import escape
 
 from lib.c15 import net as N
@@ -38,6 +43,9 @@ class X(object):
 
 def render(net, lex, opts=None):
     L = lex
+    # the places of the statements are drawn from a stream of their own (derived from the lexical stream without drawing from it)
+    places = random.Random("arxml places %r" % (L.rng.getstate()[1][:8],))
+    L.notes = {}
     x = X(L)
     d = 6
 
@@ -143,6 +151,16 @@ def render(net, lex, opts=None):
                 x.el("PACKING-BYTE-ORDER", text="MOST-SIGNIFICANT-BYTE-LAST" if s["little"] else "MOST-SIGNIFICANT-BYTE-FIRST", depth=d + 4),
                 x.el("START-POSITION", text=start_position(s), depth=d + 4),
                 x.el("TRANSFER-PROPERTY", text="PENDING", depth=d + 4)], depth=d + 3))
+            # one statement, several places: level 0 keeps computation method and data constraint in the I-SIGNAL, the unit in the computation method
+            policy, cm_at, dc_at, unit_at, sig_type, dyn_len = None, "I-SIGNAL", "I-SIGNAL", "COMPU-METHOD", False, False
+            if L.level:
+                policy = places.choice([None, "LEGACY", "OVERRIDE", "OVERRIDE"])
+                cm_at = places.choice(["I-SIGNAL", "SYSTEM-SIGNAL", "SYSTEM-SIGNAL", "both"])
+                dc_at = places.choice(["I-SIGNAL", "SYSTEM-SIGNAL", "SYSTEM-SIGNAL", "both"])
+                sig_type = places.random() < 0.3
+                dyn_len = places.random() < 0.3
+                # (a UNIT-REF in the PHYSICAL-PROPS of the SYSTEM-SIGNAL alone is not read by the unchanged reader - the unit comes back empty: kept out of the stream for now)
+                unit_at = places.choice(["COMPU-METHOD", "COMPU-METHOD", "I-SIGNAL", "both"])
             # compu method: factor = n1/den, offset = n0/den
             den, mult = L.rng.choice([("1", 1), ("1", 1), ("2", 2), ("4", 4), ("5", 5), ("10", 10)]) if L.level else ("1", 1)
             n1 = str(N.D(s["factor"]) * mult)
@@ -160,8 +178,12 @@ def render(net, lex, opts=None):
             scales = [scales[0]] + L.order(scales[1:])
             cm_name = "CM_" + isig
             cmk = [sn(cm_name, d + 1), x.el("CATEGORY", text="SCALE_LINEAR_AND_TEXTTABLE" if s["values"] else "LINEAR", depth=d + 1)]
+            unit_ref = ""
             if s["unit"]:
-                cmk.append(ref("UNIT-REF", "UNIT", unit(s["unit"]), d + 1))
+                if unit_at != "I-SIGNAL":
+                    cmk.append(ref("UNIT-REF", "UNIT", unit(s["unit"]), d + 1))
+                if unit_at != "COMPU-METHOD":
+                    unit_ref = ref("UNIT-REF", "UNIT", unit(s["unit"]), d + 4)
             cmk.append(x.el("COMPU-INTERNAL-TO-PHYS", [x.el("COMPU-SCALES", scales, depth=d + 3)], depth=d + 2))
             compu_x.append(x.el("COMPU-METHOD", cmk, depth=d))
             # limits as internal (raw) constraints
@@ -173,11 +195,21 @@ def render(net, lex, opts=None):
                 constr_x.append(x.el("DATA-CONSTR", [sn(dc_name, d + 1), x.el("DATA-CONSTR-RULES", [x.el("DATA-CONSTR-RULE", [x.el("INTERNAL-CONSTRS", [
                     x.el("LOWER-LIMIT", text=str(int(rl)), depth=d + 5), x.el("UPPER-LIMIT", text=str(int(ru)), depth=d + 5)], depth=d + 4)], depth=d + 3)], depth=d + 2)], depth=d))
                 dc_ref = ref("DATA-CONSTR-REF", "DATA-CONSTR", P + "/Constrs/" + dc_name, d + 4)
+            cm_ref = ref("COMPU-METHOD-REF", "COMPU-METHOD", P + "/CompuMethods/" + cm_name, d + 4)
+            L.notes[isig] = ["DATA-TYPE-POLICY " + (policy or "left out"), "COMPU-METHOD-REF in " + cm_at] + (["DATA-CONSTR-REF in " + dc_at] if dc_ref else []) + (["UNIT-REF in " + unit_at] if s["unit"] else []) + (
+                ["DATA-TYPE-POLICY %s, DATA-CONSTR-REF in %s" % (policy or "left out", dc_at)] if dc_ref else [])
             props = x.el("NETWORK-REPRESENTATION-PROPS", [x.el("SW-DATA-DEF-PROPS-VARIANTS", [x.el("SW-DATA-DEF-PROPS-CONDITIONAL", [
-                ref("BASE-TYPE-REF", "SW-BASE-TYPE", base_type(s), d + 4), ref("COMPU-METHOD-REF", "COMPU-METHOD", P + "/CompuMethods/" + cm_name, d + 4), dc_ref], depth=d + 3)], depth=d + 2)], depth=d + 1)
-            isigs_x.append(x.el("I-SIGNAL", [sn(isig, d + 1), x.el("LENGTH", text=s["size"], depth=d + 1), props,
+                ref("BASE-TYPE-REF", "SW-BASE-TYPE", base_type(s), d + 4), cm_ref if cm_at != "SYSTEM-SIGNAL" else "", dc_ref if dc_at != "SYSTEM-SIGNAL" else "", unit_ref], depth=d + 3)], depth=d + 2)], depth=d + 1)
+            isigs_x.append(x.el("I-SIGNAL", [sn(isig, d + 1), x.el("DATA-TYPE-POLICY", text=policy, depth=d + 1) if policy else "",
+                                             x.el("I-SIGNAL-TYPE", text="PRIMITIVE", depth=d + 1) if sig_type else "",
+                                             x.el("LENGTH", text=s["size"], depth=d + 1), props,
                                              ref("SYSTEM-SIGNAL-REF", "SYSTEM-SIGNAL", P + "/SystemSignals/" + isig + "_sys", d + 1)], depth=d))
-            ssigs_x.append(x.el("SYSTEM-SIGNAL", [sn(isig + "_sys", d + 1), desc(s["comment"], d + 1)], depth=d))
+            phys = [cm_ref if cm_at != "I-SIGNAL" else "", dc_ref if dc_at != "I-SIGNAL" else ""]
+            phys_props = ""
+            if any(phys):
+                phys_props = x.el("PHYSICAL-PROPS", [x.el("SW-DATA-DEF-PROPS-VARIANTS", [x.el("SW-DATA-DEF-PROPS-CONDITIONAL", phys, depth=d + 3)], depth=d + 2)], depth=d + 1)
+            ssigs_x.append(x.el("SYSTEM-SIGNAL", [sn(isig + "_sys", d + 1), desc(s["comment"], d + 1),
+                                                  x.el("DYNAMIC-LENGTH", text="false", depth=d + 1) if dyn_len else "", phys_props], depth=d))
         timing = ""
         if f.get("cycle"):
             sec = N.D(f["cycle"]) / 1000
